@@ -139,7 +139,37 @@ R_PREFIX = {
 }
 
 
-def collect_R(pid, tier):
+def _r_failed(desc, r, seed):
+    """a refuted assertion of layer R, with Kani's counterexample configuration replayed natively"""
+    from . import layer_r
+    detail = "Kani refutes %s on the real Features::resolve over the symbolic configuration space" % desc
+    cfg = (r.get("counterexamples") or {}).get(desc)
+    replay = None
+    if cfg:
+        detail += "\ncounterexample configuration (Kani concrete playback): %s" % json.dumps(cfg)
+        try:
+            name = "rcex_" + re.sub(r"[^0-9A-Za-z]", "_", desc)[-40:].lower()
+            spec = layer_r.spec_from_config(cfg, name)
+            with Scratch("vf-rcex-") as sc:
+                ri = layer_i.run_instances(sc, [spec], seed, "quick")
+            why = None
+            if ri.get("rejected", {}).get(name):
+                why = "does not compile: " + ri["rejected"][name][:600]
+            elif ri.get("modules", {}).get(name, {}).get("fails"):
+                f0 = ri["modules"][name]["fails"][0]
+                why = "%s %s: %s" % (f0["prop"], f0["check"], f0["detail"])
+            if why:
+                detail += "\nreplayed on the real macro: " + why
+                replay = {"mod": name, "decl": spec.render(), "fail": {"prop": "R", "check": desc, "detail": why}, "seed": seed, "tier": "quick",
+                          "spec": {"repr": spec.repr, "discs": spec.discs(), "features": spec.features}}
+            else:
+                detail += "\nthe configuration compiles and passes the oracle natively (the refuted clause is not observable on this enum)"
+        except Exception as e:  # replay is best effort
+            detail += "\n(replay of the counterexample failed: %s)" % e
+    return Ob("R/" + desc, "failed", "kani+cbmc", detail, replay=replay)
+
+
+def collect_R(pid, tier, seed_for_replay=1):
     r = artifacts.get_r(tier)
     obs = []
     meta = {"cache_hit": r.get("cache_hit"), "layer_wall_s": r.get("wall_s", 0), "kani_summary": r.get("kani_summary"),
@@ -157,7 +187,7 @@ def collect_R(pid, tier):
             if st == "SUCCESS":
                 obs.append(Ob("R/" + desc, "ok", "kani+cbmc", sample={"assertion": desc}))
             elif st == "FAILURE":
-                obs.append(Ob("R/" + desc, "failed", "kani+cbmc", "Kani refutes %s on the real Features::resolve over the symbolic configuration space" % desc))
+                obs.append(_r_failed(desc, r, seed_for_replay))
             else:
                 obs.append(Ob("R/" + desc, "undecided", "kani+cbmc", "assertion missing from Kani output (status %s)" % st))
     for desc, st in sorted(r["checks"].items()):
@@ -165,7 +195,7 @@ def collect_R(pid, tier):
             if st == "SUCCESS":
                 obs.append(Ob("R/" + desc, "ok", "kani+cbmc", sample={"assertion": desc}))
             elif st == "FAILURE":
-                obs.append(Ob("R/" + desc, "failed", "kani+cbmc", "Kani refutes %s on the real Features::resolve over the symbolic configuration space" % desc))
+                obs.append(_r_failed(desc, r, seed_for_replay))
             else:
                 obs.append(Ob("R/" + desc, "undecided", "kani+cbmc", "status %s" % st))
     if pid == "C10":
@@ -422,6 +452,8 @@ def write_replay(pid, n, ob, partner=None):
     if src.replay and src.replay.get("decl"):
         rp = src.replay
         info["negative"] = rp.get("negative")
+        if rp.get("spec"):
+            info["spec"] = rp["spec"]
         info.update({"failing_input_found": True, "module": rp["mod"], "failing_check": rp["fail"], "seed": rp["seed"], "tier": rp["tier"],
                      "how": "./check %s --replay %s" % (pid, d)})
         with open(os.path.join(d, "decl.rs"), "w") as f:
@@ -455,9 +487,12 @@ def do_replay(path):
     # rebuild the corpus entry by module name from the generator (same seed/tier)
     specs = artifacts.quick_instance_corpus(seed) if tier == "quick" else corpus.instance_corpus("thorough", seed)
     specs = [s for s in specs if s.mod == info["module"]]
+    if not specs and info.get("spec"):
+        sp = info["spec"]
+        specs = [corpus.EnumSpec(info["module"], sp["repr"], corpus.mk_variants(sp["discs"], implicit_ok=False), list(sp["features"]), ident="En")]
     if not specs:
-        from . import props_extra
-        specs = [s for s in props_extra.all_extra_specs(seed, tier) if s.mod == info["module"]]
+        from . import layer_s
+        specs = [s for s in layer_s.all_extra_specs(seed, tier) + corpus.c11_specs(tier, seed) if s.mod == info["module"]]
     if not specs:
         print("cannot regenerate module %s" % info["module"])
         return 2
